@@ -855,6 +855,19 @@ func init() {
 		return Iface{t: getOpaqueType("context"), v: &Opaque{name: "context.TODO"}}
 	})
 
+	// ---------- byte slices (assembly-backed in the standard library; concrete operands only) ----------
+	cmpBytes := func(e *Exec, fn *ssa.Function, a []Value) Value {
+		x, y := string(bytesOfSlice(e, a[0])), string(bytesOfSlice(e, a[1]))
+		return mkInt64(int64(strings.Compare(x, y)))
+	}
+	eqBytes := func(e *Exec, fn *ssa.Function, a []Value) Value {
+		return mkBool(string(bytesOfSlice(e, a[0])) == string(bytesOfSlice(e, a[1])))
+	}
+	reg("internal/bytealg.Compare", cmpBytes)
+	reg("bytes.Compare", cmpBytes)
+	reg("bytes.Equal", eqBytes)
+	reg("internal/bytealg.Equal", eqBytes)
+
 	// ---------- sort support (reflectlite) ----------
 	reg("internal/reflectlite.ValueOf", func(e *Exec, fn *ssa.Function, a []Value) Value {
 		return &Opaque{name: "reflectlite.Value", data: a[0]}
